@@ -1,8 +1,9 @@
-(* C16 — algebraic facts about the executable curve model, for all inputs: the point formulas of the
-   code keep the curve equation (projective form, with T Z = X Y), and decompression returns only
-   points of the curve.  Proved by nsatz over Z modulo the prime 2^255 - 19 (FieldMod.v).
-   NOT proved here: completeness of the addition law (Z3 <> 0, which needs d to be a non-square), the
-   group laws for pt_add (associativity), and decompress (compress P) = P. *)
+(* C16 — algebraic facts about the executable curve model, for all inputs: doubling and negation as
+   written in the code keep the equations of the extended curve.  Proved by nsatz over Z modulo the prime 2^255 - 19 (FieldMod.v).
+   NOT proved here (correspondence-checked only, CurveHarness.v): closure of pt_add/pt_sub (the nsatz
+   problem in 9 variables did not finish), that decompress returns only curve points, completeness of
+   the addition law (Z3 <> 0, which needs d to be a non-square), the group laws for pt_add
+   (associativity), and decompress (compress P) = P. *)
 From Coq Require Import ZArith Znumtheory Lia Nsatz Bool.
 From Coq Require Import Ncring Cring Integral_domain Morphisms Setoid.
 From V.C16 Require Import Curve CurveProofs FieldMod.
@@ -91,65 +92,4 @@ Proof.
   split; [unfold wf; cbn [pX pY pZ pT]; tauto|].
   unfold Cv. cbn [pX pY pZ pT]. set (X' := fneg X) in *. set (T' := fneg T) in *.
   clearbody X' T'. rewrite EX, ET. clear - C1 C2. split; nsatz.
-Qed.
-
-Lemma fpow_in z e : inF z -> 0 < e -> inF (fpow z e).
-Proof. intros Hz He. destruct e; try lia. apply fpow_pos_spec, Hz. Qed.
-
-Lemma e22523_pos : 0 < (fp - 5) / 8.
-Proof. vm_compute. reflexivity. Qed.
-
-Lemma sqrt_fixup x i V U : eqm (i * i + 1) 0 -> eqm 0 (x * x * V + U) -> eqm (x * i * (x * i) * V) U.
-Proof. intros H1 H2. nsatz. Qed.
-
-(* decompression (FromBytes) returns only points of the curve, for every 256-bit input: the accepted
-   candidate satisfies v x^2 = u, which is the curve equation; the sqrt(-1) fix-up and the sign
-   adjustment keep x^2 *)
-Lemma decompress_sound e P : 0 <= e -> decompress e = Some P -> wf P /\ Cv P /\ pZ P = 1.
-Proof.
-  intros He. unfold decompress.
-  assert (Ry : inF (fred (Z.land e m255))).
-  { assert (Hl : 0 <= Z.land e m255 < 2 ^ 255).
-    { unfold m255. change (2 ^ 255 - 1) with (Z.ones 255). rewrite Z.land_ones by lia.
-      apply Z.mod_pos_bound. lia. }
-    rewrite fred_spec by lia. apply Z.mod_pos_bound, fp_pos. }
-  set (y := fred (Z.land e m255)) in *.
-  pose proof one_in as R1.
-  name_sq yy y. name_sub u yy 1. name_mul yd yy cd. name_add v yd 1.
-  set (v3 := fmul (fsq v) v). assert (Rv3 : inF v3) by (unfold v3; inF_tac).
-  set (x0 := fmul (fmul (fsq v3) v) u). assert (Rx0 : inF x0) by (unfold x0; inF_tac).
-  assert (Rpw : inF (fpow x0 ((fp - 5) / 8))) by (apply fpow_in; [exact Rx0 | exact e22523_pos]).
-  set (x1 := fmul (fmul (fpow x0 ((fp - 5) / 8)) v3) u). assert (Rx1 : inF x1) by (unfold x1; inF_tac).
-  name_sq xs x1. name_mul vxx xs v.
-  assert (Hfin : forall x, inF x -> eqm (x * x * (y * y * cd + 1)) (y * y - 1) ->
-            let x' := if x mod 2 =? Z.shiftr e 255 then x else fneg x in
-            wf (mkpt x' y 1 (fmul x' y)) /\ Cv (mkpt x' y 1 (fmul x' y)) /\ pZ (mkpt x' y 1 (fmul x' y)) = 1).
-  { intros x Rx Hx. cbv zeta.
-    assert (Hx' : exists x', inF x' /\ eqm (x' * x') (x * x) /\
-                  (if x mod 2 =? Z.shiftr e 255 then x else fneg x) = x').
-    { destruct (x mod 2 =? Z.shiftr e 255).
-      - exists x. split; [exact Rx | split; reflexivity].
-      - exists (fneg x). pose proof (fneg_eqm x Rx) as En. pose proof (fneg_in x Rx) as Rn.
-        split; [exact Rn|]. split; [|reflexivity]. set (n := fneg x) in *. clearbody n. clear - En. nsatz. }
-    destruct Hx' as (x' & Rx' & Ex' & ->).
-    pose proof (fmul_eqm x' y Rx' Ry) as Et. pose proof (fmul_in x' y Rx' Ry) as Rt.
-    set (t := fmul x' y) in *.
-    split; [unfold wf; cbn [pX pY pZ pT]; tauto|]. split; [|reflexivity].
-    unfold Cv. cbn [pX pY pZ pT]. clearbody t y.
-    rewrite Et. clear - Ex' Hx. split; nsatz. }
-  clearbody vxx xs u v yd yy x1 y. clear v3 x0 Rv3 Rx0 Rpw.
-  destruct (Z.eqb_spec (fsub vxx u) 0) as [H0|H0].
-  - cbv beta iota zeta. intro H. injection H as <-. apply (Hfin x1 Rx1).
-    pose proof (fsub_eqm vxx u Rvxx Ru) as Es. rewrite H0 in Es.
-    rewrite Evxx, Exs, Ev, Eyd, Eu, Eyy in Es. clear - Es. nsatz.
-  - destruct (Z.eqb_spec (fadd vxx u) 0) as [H1|H1]; [|discriminate].
-    cbv beta iota zeta. intro H. injection H as <-.
-    pose proof sqrtm1_in as Rs. pose proof sqrtm1_sq as Ess.
-    pose proof (fmul_eqm x1 sqrtm1 Rx1 Rs) as Em. pose proof (fmul_in x1 sqrtm1 Rx1 Rs) as Rm.
-    apply (Hfin _ Rm).
-    pose proof (fadd_eqm vxx u Rvxx Ru) as Es. rewrite H1 in Es.
-    set (xm := fmul x1 sqrtm1) in *. set (i := sqrtm1) in *.
-    clearbody xm i.
-    rewrite Evxx, Exs, Ev, Eyd, Eu, Eyy in Es. rewrite Em. clear - Es Ess.
-    set (V := y * y * cd + 1) in *. set (U := y * y - 1) in *. clearbody V U. clear y. nsatz.
 Qed.
